@@ -274,12 +274,19 @@ def applyCfgUpd (c : Cfg) : CfgUpd → Cfg
 inductive Outcome | ok | conflictSwallowed | conflictError | exists_ | missing
 deriving DecidableEq, Repr, Inhabited
 
+/-- `p` is the node `d` or lies below it at a path-element boundary (the device is assumed to
+    implement gNMI delete semantics; an element ends at `/` or at a key bracket) -/
+def elemUnder (p d : OnosVerif.Path.Str) : Bool :=
+  Config.hasPrefix p d && (match p.drop d.length with
+    | [] => true
+    | c :: _ => c = '/' || c = '[')
+
 /-- gNMI application of one southbound request to a device configuration: deletes remove the
-    addressed path and everything textually below it, updates set leaves (payload already pruned). -/
+    addressed path and everything below it, updates set leaves (payload already pruned). -/
 def devApply (dev : VMap) (payload : List PV) : VMap :=
   let dels := payload.filter (fun e => e.deleted)
   let upds := payload.filter (fun e => !e.deleted)
-  let kept := dev.filter (fun e => !dels.any (fun d => Config.hasPrefix e.path d.path))
+  let kept := dev.filter (fun e => !dels.any (fun d => elemUnder e.path d.path))
   upds.foldl (fun m u => VMap.set m u) kept
 
 def Sys.dev (s : Sys) (t : Tgt) : VMap := ((s.devs.find? (fun d => d.1 = t)).map (·.2)).getD []
